@@ -1474,3 +1474,32 @@ Proof.
     destruct (randbelow fuel n tp') as [[r' t']|]; [|discriminate]. injection R' as E1 E2. subst t'.
     assert (r' = r) by nia. subst r'. reflexivity.
 Qed.
+
+(** * _randbelow(sectype, n) for a secure FIELD type with n = field order: runtime._random(sectype)
+    (random.py:58-60).  Without PRSS the t+1 senders each draw secrets.randbelow(p) and the shares are added:
+    the result is the sum of the draws modulo p.  (With PRSS the draws are PRF outputs below p, same formula.) *)
+Definition field_random (p : Z) (draws : list Z) : Z := (zsum draws) mod p.
+Definition randbelow_order (p : Z) (draws : list Z) : Z := field_random p draws.
+
+Theorem randbelow_order_range : forall p draws, 0 < p -> 0 <= randbelow_order p draws < p.
+Proof. intros p draws Hp. unfold randbelow_order, field_random. apply Z.mod_pos_bound. exact Hp. Qed.
+
+(** uniform over the WHOLE field: whatever the other senders draw, every field value v arises from exactly one
+    draw r in range(p) of one sender *)
+Theorem randbelow_order_uniform : forall p rest v, 0 < p -> 0 <= v < p ->
+  exists! r, 0 <= r < p /\ randbelow_order p (r :: rest) = v.
+Proof.
+  intros p rest v Hp Hv. unfold randbelow_order, field_random. cbn [zsum fold_right]. fold (zsum rest).
+  set (s := zsum rest). exists ((v - s) mod p). split.
+  - split; [apply Z.mod_pos_bound; exact Hp|].
+    rewrite Zplus_mod_idemp_l. replace (v - s + s) with v by ring. apply Z.mod_small. exact Hv.
+  - intros r [Hr E].
+    assert (Ha : 0 <= (v - s) mod p < p) by (apply Z.mod_pos_bound; exact Hp).
+    assert (Ea : ((v - s) mod p + s) mod p = v).
+    { rewrite Zplus_mod_idemp_l. replace (v - s + s) with v by ring. apply Z.mod_small. exact Hv. }
+    set (a := (v - s) mod p) in *.
+    pose proof (Z.div_mod (r + s) p ltac:(lia)) as D1. rewrite E in D1.
+    pose proof (Z.div_mod (a + s) p ltac:(lia)) as D2. rewrite Ea in D2.
+    set (q1 := (r + s) / p) in *. set (q2 := (a + s) / p) in *. clearbody q1 q2 a s.
+    assert (Hq : q1 = q2) by nia. subst q2. lia.
+Qed.
